@@ -47,8 +47,13 @@ def build():
 
 
 def stable_tests():
-    junit = bdir + "/junit-verify.xml"
-    sh("ctest --test-dir %s -j8 --timeout 900 --output-junit %s >/dev/null 2>&1" % (bdir, junit))
+    tdir = bdir
+    if "-fsanitize" in cmake_opts():
+        # the demonstration needs a sanitizer build; the baseline tests are judged in a default build
+        tdir = seed + "/build-default"
+        sh("cmake -G Ninja -S %s -B %s -DCMAKE_BUILD_TYPE=RelWithDebInfo >/dev/null && cmake --build %s -j10 2>&1 | tail -3" % (repo, tdir, tdir))
+    junit = tdir + "/junit-verify.xml"
+    sh("ctest --test-dir %s -j8 --timeout 900 --output-junit %s >/dev/null 2>&1" % (tdir, junit))
     base = json.load(open("/root/.vp/BASELINE.json"))
     want = set((x.split("::")[0] if "." in x.split("::")[0] else x.replace("::", ".")) for x in base["stable_pass"])
     got = {}
